@@ -132,38 +132,52 @@ theorem ctx_fresh_not_pend {w : World} (h : Inv w) : w.nextCtx ∉ pendCtxs w :=
 theorem ctx_fresh_not_estab {w : World} (h : Inv w) (g : Gid) : (g, w.nextCtx) ∉ w.estab :=
   fun hc => Nat.lt_irrefl _ (h.estabLt g _ hc)
 
-/-- `pcore.Do` -/
-theorem doDo_step {g : Nat} {id : Nat} {body : CtxId → World → Outcome × World} {w : World}
+/-- the deferred `recover()` of `TryWithParent` -/
+theorem catch_step {g : Gid} {ctch : Bool} {r : Outcome × World} {x : Option CtxId} {w : World} (base : Step x w r.2) :
+    Step x w (if ctch = true ∧ r.1 = .panicked then (Outcome.normal, emit g .recovered r.2) else r).2 ∧
+    (if ctch = true ∧ r.1 = .panicked then (Outcome.normal, emit g .recovered r.2) else r).2.tls = r.2.tls := by
+  by_cases hc : ctch = true ∧ r.1 = .panicked
+  · rw [if_pos hc]
+    exact ⟨base.trans (emit_step base.inv EvOK.recovered) (fun _ _ _ => by simp), rfl⟩
+  · rw [if_neg hc]
+    exact ⟨base, rfl⟩
+
+/-- `DoWithParent` / `TryWithParent` with a `px.Context` parent -/
+theorem doParent_step {g : Nat} {id : Nat} {ctch : Bool} {body : CtxId → World → Outcome × World} {root : Nat} {w2 : World}
+    (hp : Pre g root w2)
+    (hb : ∀ cx w1, Pre g cx w1 → Step (some cx) w1 (body cx w1).2 ∧ (body cx w1).2.tls = w1.tls) :
+    Step (some root) w2 (doParent .now g id ctch body root w2).2 ∧ (doParent .now g id ctch body root w2).2.tls = w2.tls := by
+  have sF : Step none w2 (forkCtx root w2).2 := forkCtx_step hp.inv
+  have hd := doWithContext_step (g := g) (cx := w2.nextCtx) (w := (forkCtx root w2).2)
+    (body := fun w4 => body w2.nextCtx (setVar w2.nextCtx tagKey id w4))
+    sF.inv hp.glt hp.gnp (by simp) (ctx_fresh_not_pend hp.inv) (fun g' => ctx_fresh_not_estab hp.inv g')
+    (by
+      intro w4 hp4
+      have s4 : Step (some w2.nextCtx) w4 (setVar w2.nextCtx tagKey id w4) := setVar_step hp4.inv
+      obtain ⟨sb, tb⟩ := hb w2.nextCtx _ (hp4.step s4 rfl)
+      exact ⟨s4.trans sb (fun _ _ h => h), by rw [tb]; rfl⟩)
+  have base : Step (some root) w2 (doWithContext .now g w2.nextCtx
+      (fun w4 => body w2.nextCtx (setVar w2.nextCtx tagKey id w4)) (forkCtx root w2).2).2 := by
+    refine (sF.weaken (x := some root)).trans hd.1 ?_
+    intro i hi _ hc
+    simp at hc; omega
+  simp only [doParent, forkCtx_fst]
+  obtain ⟨c1, c2⟩ := catch_step (g := g) (ctch := ctch) base
+  exact ⟨c1, c2.trans (hd.2.trans rfl)⟩
+
+/-- `pcore.Do` / `pcore.Try` -/
+theorem doDo_step {g : Nat} {id : Nat} {ctch : Bool} {body : CtxId → World → Outcome × World} {w : World}
     (hinv : Inv w) (hg : g < w.nextGid) (hgp : g ∉ pendGids w)
     (hb : ∀ cx w1, Pre g cx w1 → Step (some cx) w1 (body cx w1).2 ∧ (body cx w1).2.tls = w1.tls) :
-    Step none w (doDo .now g id body w).2 ∧ (doDo .now g id body w).2.tls = w.tls := by
+    Step none w (doDo .now g id ctch body w).2 ∧ (doDo .now g id ctch body w).2.tls = w.tls := by
   simp only [doDo]
   have s0 : Step none w (newCtx { loader := [0] } w).2 := newCtx_step hinv
   have hroot : (newCtx { loader := [0] } w).1 = w.nextCtx := rfl
   rw [hroot]
-  have inner : ∀ w2, Pre g w.nextCtx w2 →
-      Step (some w.nextCtx) w2 (doWithContext .now g (forkCtx w.nextCtx w2).1
-        (fun w4 => body (forkCtx w.nextCtx w2).1 (setVar (forkCtx w.nextCtx w2).1 tagKey id w4)) (forkCtx w.nextCtx w2).2).2 ∧
-      (doWithContext .now g (forkCtx w.nextCtx w2).1
-        (fun w4 => body (forkCtx w.nextCtx w2).1 (setVar (forkCtx w.nextCtx w2).1 tagKey id w4)) (forkCtx w.nextCtx w2).2).2.tls = w2.tls := by
-    intro w2 hp
-    have sF : Step none w2 (forkCtx w.nextCtx w2).2 := forkCtx_step hp.inv
-    have hd := doWithContext_step (g := g) (cx := w2.nextCtx) (w := (forkCtx w.nextCtx w2).2)
-      (body := fun w4 => body w2.nextCtx (setVar w2.nextCtx tagKey id w4))
-      sF.inv hp.glt hp.gnp (by simp) (ctx_fresh_not_pend hp.inv) (fun g' => ctx_fresh_not_estab hp.inv g')
-      (by
-        intro w4 hp4
-        have s4 : Step (some w2.nextCtx) w4 (setVar w2.nextCtx tagKey id w4) := setVar_step hp4.inv
-        obtain ⟨sb, tb⟩ := hb w2.nextCtx _ (hp4.step s4 rfl)
-        exact ⟨s4.trans sb (fun _ _ h => h), by rw [tb]; rfl⟩)
-    simp only [forkCtx_fst]
-    refine ⟨(sF.weaken (x := some w.nextCtx)).trans hd.1 ?_, by rw [hd.2]; rfl⟩
-    intro i hi _ hc
-    simp at hc; omega
   have hd := doWithContext_step (g := g) (cx := w.nextCtx) (w := (newCtx { loader := [0] } w).2)
-    (body := fun w2 => doWithContext .now g (forkCtx w.nextCtx w2).1
-        (fun w4 => body (forkCtx w.nextCtx w2).1 (setVar (forkCtx w.nextCtx w2).1 tagKey id w4)) (forkCtx w.nextCtx w2).2)
-    s0.inv hg hgp (Nat.lt_succ_self _) (ctx_fresh_not_pend hinv) (fun g' => ctx_fresh_not_estab hinv g') inner
+    (body := doParent .now g id ctch body w.nextCtx)
+    s0.inv hg hgp (Nat.lt_succ_self _) (ctx_fresh_not_pend hinv) (fun g' => ctx_fresh_not_estab hinv g')
+    (fun w2 hp => doParent_step hp hb)
   refine ⟨s0.trans hd.1 ?_, by rw [hd.2]; rfl⟩
   intro i hi _ hc
   simp at hc; omega
@@ -298,7 +312,12 @@ theorem exec_step : ∀ f, ExecOK (exec .now f) := by
       simp at hc; omega
     | dodo id p =>
       simp only [exec]
-      obtain ⟨sd, td⟩ := doDo_step (id := id) (body := fun cx w1 => exec .now f p g cx w1) h.inv h.glt h.gnp
+      obtain ⟨sd, td⟩ := doDo_step (id := id) (ctch := false) (body := fun cx w1 => exec .now f p g cx w1) h.inv h.glt h.gnp
+        (fun cx w1 hp => ih p g cx w1 hp)
+      exact ⟨sd.weaken, td⟩
+    | dotry id p =>
+      simp only [exec]
+      obtain ⟨sd, td⟩ := doDo_step (id := id) (ctch := true) (body := fun cx w1 => exec .now f p g cx w1) h.inv h.glt h.gnp
         (fun cx w1 hp => ih p g cx w1 hp)
       exact ⟨sd.weaken, td⟩
     | doloader p =>
@@ -325,7 +344,18 @@ theorem exec_dodo_step {f : Nat} {id : Nat} {p : Prog} {g c : Nat} {w : World}
   | zero => exact ⟨Step.refl hinv, rfl⟩
   | succ f =>
     simp only [exec]
-    exact doDo_step (id := id) (body := fun cx w1 => exec .now f p g cx w1) hinv hg hgp
+    exact doDo_step (id := id) (ctch := false) (body := fun cx w1 => exec .now f p g cx w1) hinv hg hgp
+      (fun cx w1 hp => exec_step f p g cx w1 hp)
+
+/-- `pcore.Try` likewise -/
+theorem exec_dotry_step {f : Nat} {id : Nat} {p : Prog} {g c : Nat} {w : World}
+    (hinv : Inv w) (hg : g < w.nextGid) (hgp : g ∉ pendGids w) :
+    Step none w (exec .now f (.dotry id p) g c w).2 ∧ (exec .now f (.dotry id p) g c w).2.tls = w.tls := by
+  cases f with
+  | zero => exact ⟨Step.refl hinv, rfl⟩
+  | succ f =>
+    simp only [exec]
+    exact doDo_step (id := id) (ctch := true) (body := fun cx w1 => exec .now f p g cx w1) hinv hg hgp
       (fun cx w1 hp => exec_step f p g cx w1 hp)
 
 theorem drain_step (fuel : Nat) : ∀ (n : Nat) (w : World), Inv w →
